@@ -208,7 +208,8 @@ let handle (w : string list) =
           | None -> say ("DIFF " ^ desc ^ " outside the model")
         end else begin
           bump "child_deletes";
-          Hashtbl.remove tabs ckey;
+          (* the child may have been MOVED (ADF_Move_Child adds to the new parent, then deletes from the old one):
+             its own table stays; a table left behind by a deleted node is reset when its address is reused (ccap = 0) *)
           match del_child t child with
           | COk t' ->
               Hashtbl.replace tabs pkey t';
